@@ -527,3 +527,88 @@ Section Lists.
                (fun _ => eq_refl) eq_refl).
   Qed.
 End Lists.
+
+(* ---------------------------------------------------------------- blocking acquisition, with its exact trace *)
+Lemma run_then_blocked pw t a b w w' :
+  run pw t a w = (OBlocked, w') -> run pw t (a ;; b) w = (OBlocked, w').
+Proof. intros H. unfold pthen. simpl. now rewrite H. Qed.
+
+Definition acq_ev (t : tid) (m : mode) (x : lk) : ev := ERaw t (acq_op (fst x) m) (snd x) RUnit.
+
+Section Lock.
+  Variables (t : tid) (m : mode).
+
+  Definition Plock (r : rawref) : Prop :=
+    forall w, quiet w -> NoDup (locks_of (rleaves r)) ->
+    if can_all m (rleaves r) (w_raw w)
+    then exists w', run nopw t (rr_lock m r) w = (ODone VUnit, w') /\
+                    eff w w' (acq_all t m (rleaves r) (w_raw w)) /\
+                    w_trace w' = rev (map (acq_ev t m) (rleaves r)) ++ w_trace w
+    else exists w', run nopw t (rr_lock m r) w = (OBlocked, w').
+
+  Lemma run_lock_loop todo :
+    Forall Plock todo ->
+    forall done w f0,
+      quiet w -> NoDup (locks_of (rsleaves (done ++ todo))) ->
+      (forall x, w_raw w x = acq_all t m (rsleaves done) f0 x) ->
+      if can_all m (rsleaves todo) f0
+      then exists w', run nopw t (ordered_lock_from m (rr_lock m) done todo) w = (ODone VUnit, w') /\
+                      eff w w' (acq_all t m (rsleaves (done ++ todo)) f0) /\
+                      w_trace w' = rev (map (acq_ev t m) (rsleaves todo)) ++ w_trace w
+      else exists w', run nopw t (ordered_lock_from m (rr_lock m) done todo) w = (OBlocked, w').
+  Proof.
+    induction 1 as [|x r Hx Hr IH]; intros done w f0 Q ND Hw.
+    - cbn [rsleaves flat_map can_all forallb]. exists w. split; [reflexivity|]. split.
+      + rewrite app_nil_r. eapply eff_ext; [apply eff_refl|]. exact Hw.
+      + reflexivity.
+    - cbn [ordered_lock_from]. rewrite rsleaves_app, rsleaves_cons, locks_of_app, locks_of_app in ND.
+      assert (NDx : NoDup (locks_of (rleaves x))) by (eapply NoDup_app_l, NoDup_app_r; eauto).
+      assert (Hfx : forall y, In y (locks_of (rleaves x)) -> w_raw w y = f0 y).
+      { intros y Hy. rewrite Hw. apply acq_all_other. intros Hin.
+        eapply NoDup_app_disj; [exact ND|exact Hin|]. apply in_or_app. now left. }
+      specialize (Hx w Q NDx). rewrite (can_all_ext m (rleaves x) (w_raw w) f0 Hfx) in Hx.
+      rewrite rsleaves_cons, can_all_app.
+      destruct (can_all m (rleaves x) f0) eqn:Cx; cbn [andb].
+      + destruct Hx as [w1 [R1 [E1 T1]]].
+        assert (Q1 : quiet w1) by (eapply eff_quiet; eauto).
+        assert (ND' : NoDup (locks_of (rsleaves ((done ++ [x]) ++ r)))).
+        { rewrite <- app_assoc. simpl. rewrite rsleaves_app, rsleaves_cons, !locks_of_app. exact ND. }
+        assert (Hw1 : forall y, w_raw w1 y = acq_all t m (rsleaves (done ++ [x])) f0 y).
+        { intros y. rewrite (eff_raw _ _ _ E1). rewrite rsleaves_app, rsleaves_one, acq_all_app.
+          apply acq_all_ext. exact Hw. }
+        specialize (IH (done ++ [x]) w1 f0 Q1 ND' Hw1).
+        destruct (can_all m (rsleaves r) f0).
+        * destruct IH as [w2 [R2 [E2 T2]]]. exists w2. split; [|split].
+          -- rewrite (run_then_done _ _ _ _ _ VUnit w1); [exact R2|]. apply (run_catch_done _ _ _ _ _ _ _ R1).
+          -- rewrite <- app_assoc in E2. simpl in E2. eapply eff_trans; eauto.
+          -- rewrite T2, T1. rewrite map_app, rev_app_distr, app_assoc. reflexivity.
+        * destruct IH as [w2 R2]. exists w2.
+          rewrite (run_then_done _ _ _ _ _ VUnit w1); [exact R2|]. apply (run_catch_done _ _ _ _ _ _ _ R1).
+      + destruct Hx as [w1 R1]. exists w1. apply run_then_blocked. apply (run_catch_blocked _ _ _ _ _ _ R1).
+  Qed.
+
+  Lemma run_rr_lock r : Plock r.
+  Proof.
+    induction r as [k l|u inner IH] using rawref_ind'; intros w Q ND.
+    - change (rr_lock m (RLeaf k l)) with (leaf_lock m k l). unfold can_all. cbn [rleaves forallb fst snd acq_all map rev app].
+      rewrite andb_true_r. rewrite (run_leaf_lock t m k l w Q).
+      destruct (can1 k m (w_raw w l)).
+      + eexists. split; [reflexivity|]. split; [apply eff_after_raw; exact I|reflexivity].
+      + eexists. reflexivity.
+    - change (rr_lock m (ROwned u inner)) with (ordered_lock_from m (rr_lock m) [] inner).
+      change (rleaves (ROwned u inner)) with (rsleaves inner) in *.
+      apply (run_lock_loop inner IH [] w (w_raw w) Q ND (fun _ => eq_refl)).
+  Qed.
+
+  Lemma run_ordered_lock rs w :
+    quiet w -> NoDup (locks_of (rsleaves rs)) ->
+    if can_all m (rsleaves rs) (w_raw w)
+    then exists w', run nopw t (ordered_lock m rs) w = (ODone VUnit, w') /\
+                    eff w w' (acq_all t m (rsleaves rs) (w_raw w)) /\
+                    w_trace w' = rev (map (acq_ev t m) (rsleaves rs)) ++ w_trace w
+    else exists w', run nopw t (ordered_lock m rs) w = (OBlocked, w').
+  Proof.
+    intros Q ND.
+    apply (run_lock_loop rs (proj2 (Forall_forall _ _) (fun x _ => run_rr_lock x)) [] w (w_raw w) Q ND (fun _ => eq_refl)).
+  Qed.
+End Lock.
